@@ -99,7 +99,7 @@ func genC08(t *rapid.T, tier string) (*World, any) {
 	}
 	// cross-file probes
 	sort.Strings(targets)
-	p.Probe = pick(t, []string{"none", "none", "stash-writer-reader", "unclosed-block", "definition-elsewhere", "flags-elsewhere", "prefix-elsewhere", "exclude-under-other-definitions", "file-format-rejects"}, "probe")
+	p.Probe = pick(t, []string{"none", "none", "stash-writer-reader", "unclosed-block", "definition-elsewhere", "flags-elsewhere", "prefix-elsewhere", "exclude-under-other-definitions", "file-format-rejects", "uppercase-class-elsewhere"}, "probe")
 	a, b := targets[0], targets[1]
 	if drawBool(t, "probe-swap") {
 		a, b = b, a
@@ -121,6 +121,10 @@ func genC08(t *rapid.T, tier string) (*World, any) {
 		w.Put("crs/regex-assembly/exclude/no-jump.ra", "jump{{tail}}\n")
 		progs[a] = append(progs[a], "##!> include-except words-ing no-jump")
 		progs[b] = append(progs[b], "##!> include-except words-er no-jump")
+	case "uppercase-class-elsewhere":
+		// one file carries the i flag, another (flag-less) one an upper-case class: the lint of format --check must not carry over
+		progs[a] = append([]string{"##!+ i"}, lowerAll(progs[a])...)
+		progs[b] = append(progs[b], "up[A-Z]per")
 	case "file-format-rejects":
 		// a file that format refuses (stray end marker): --all must still treat every other file as the single invocations do
 		progs[a] = append(progs[a], "##!<")
